@@ -118,6 +118,18 @@ const ELLIPSES: &[&str] = &[
 ];
 const ELLIPSES_DISAGREE: &[&str] = &["\t", "👨\u{200d}👩\u{200d}👧", "❤\u{fe0f}", "\x01…"];
 
+/// Fixed corpus for write_truncated_start: content that fits and begins with zero-width
+/// characters (finding F-C44b, repaired by /repo commit a58816e: these must come back unchanged;
+/// with the fix reverted the checker rejects them).
+const TRUNC_START_CORPUS: &[(&str, &str, usize)] = &[
+    ("\u{ad}x漢", ".", 6),
+    ("\u{301}abc", "…", 10),
+    ("\u{200b}.-あ한漢\u{200d}a", "abcdefgh", 1000),
+    ("\u{ad}\u{1160}.\u{1160}b", "abcdefgh", 9),
+    ("\u{200d}漢é한x", "漢", 1000),
+    ("\u{301}\u{301}a", "", 1),
+];
+
 fn gen_max(rng: &mut Rng) -> usize {
     match rng.below(12) {
         0 => 0,
@@ -179,15 +191,20 @@ fn main() {
                 }
                 4..=6 => {
                     // write_truncated_start / write_truncated_end
-                    let start = rng.chance(1, 2);
+                    let mut start = rng.chance(1, 2);
                     let disagree = rng.chance(1, 5);
-                    let data = gen_text(&mut rng, disagree, 10);
-                    let ell = if disagree && rng.chance(1, 3) {
+                    let mut data = gen_text(&mut rng, disagree, 10);
+                    let mut ell = if disagree && rng.chance(1, 3) {
                         rng.pick(ELLIPSES_DISAGREE).to_string()
                     } else {
                         rng.pick(ELLIPSES).to_string()
                     };
-                    let max = gen_max(&mut rng);
+                    let mut max = gen_max(&mut rng);
+                    let corpus_slot = (i / 10) * 3 + (i % 10 - 4);
+                    if corpus_slot < TRUNC_START_CORPUS.len() {
+                        let (d, e, m) = TRUNC_START_CORPUS[corpus_slot];
+                        (start, data, ell, max) = (true, d.to_string(), e.to_string(), m);
+                    }
                     let content = recorder(&data, &mut rng);
                     let ellipsis = recorder(&ell, &mut rng);
                     let r = jjv::catch(|| {
